@@ -1272,3 +1272,108 @@ func flipCmp(op token.Token) token.Token {
 	}
 	return op
 }
+
+// mustPassAssuming: on every path from `start` (exclusive) to a return, under the branch decisions of `decide` (which
+// may rule out one successor of an If: tests whose outcome an assumption fixes), an instruction satisfying `hit` is
+// passed. It returns the first return reached without one. Panicking exits are not returns.
+func mustPassAssuming(start ssa.Instruction, decide func(*ssa.If) (takeTrue, takeFalse bool), hit func(ssa.Instruction) bool) (bool, *ssa.Return) {
+	type st struct {
+		b   *ssa.BasicBlock
+		hit bool
+	}
+	seen := map[st]bool{}
+	var bad *ssa.Return
+	var walk func(b *ssa.BasicBlock, from int, h bool)
+	walk = func(b *ssa.BasicBlock, from int, h bool) {
+		if bad != nil {
+			return
+		}
+		for _, ins := range b.Instrs[from:] {
+			if hit(ins) {
+				h = true
+			}
+			switch x := ins.(type) {
+			case *ssa.Return:
+				if !h {
+					bad = x
+				}
+				return
+			case *ssa.Panic:
+				return
+			case *ssa.If:
+				t, f := decide(x)
+				if t && !seen[st{b.Succs[0], h}] {
+					seen[st{b.Succs[0], h}] = true
+					walk(b.Succs[0], 0, h)
+				}
+				if f && !seen[st{b.Succs[1], h}] {
+					seen[st{b.Succs[1], h}] = true
+					walk(b.Succs[1], 0, h)
+				}
+				return
+			}
+		}
+		for _, s := range b.Succs {
+			if !seen[st{s, h}] {
+				seen[st{s, h}] = true
+				walk(s, 0, h)
+			}
+		}
+	}
+	walk(start.Block(), instrIndex(start)+1, false)
+	return bad == nil, bad
+}
+
+// nilTestDecider: an If that compares a value whose access path is `path` with nil is decided as if the value were
+// non-nil (isNil=false) or nil (isNil=true); every other If goes both ways.
+func nilTestDecider(path string, isNil bool) func(*ssa.If) (bool, bool) {
+	return func(i *ssa.If) (bool, bool) {
+		cond, pos := stripNot(i.Cond, true)
+		bo, ok := cond.(*ssa.BinOp)
+		if !ok || (bo.Op != token.EQL && bo.Op != token.NEQ) {
+			return true, true
+		}
+		var other ssa.Value
+		if isNilConst(bo.Y) {
+			other = bo.X
+		} else if isNilConst(bo.X) {
+			other = bo.Y
+		}
+		if other == nil || accessPath(other) != path {
+			return true, true
+		}
+		v := (bo.Op == token.EQL) == isNil
+		if !pos {
+			v = !v
+		}
+		return v, !v
+	}
+}
+
+// returnedCases: the alternatives of result idx of f. When f defers, go/ssa spills the results into locals and every
+// return loads them back: the alternatives are then the values stored into that local (each with the block of its store).
+func returnedCases(f *ssa.Function, idx int) []retCase {
+	var out []retCase
+	seenAlloc := map[*ssa.Alloc]bool{}
+	for _, r := range returnsOf(f) {
+		if idx >= len(r.Results) {
+			continue
+		}
+		if ld, ok := r.Results[idx].(*ssa.UnOp); ok && ld.Op == token.MUL {
+			if al, ok := ld.X.(*ssa.Alloc); ok && !al.Heap {
+				if seenAlloc[al] {
+					continue
+				}
+				seenAlloc[al] = true
+				for _, ref := range refsOf(al) {
+					if st, ok := ref.(*ssa.Store); ok && st.Addr == ssa.Value(al) {
+						out = append(out, splitPhiCases(st.Val, st.Block(), nil, 0)...)
+					}
+				}
+				continue
+			}
+		}
+		out = append(out, returnValueCases(r, idx)...)
+	}
+	return out
+}
